@@ -21,14 +21,11 @@ LEAN_MODULES = ['GnpyProofs.Props.C14']
 THEOREMS = [f'Gnpy.Slots.{t}' for t in (
     'step_blocked_unchanged', 'step_accept_free', 'step_slots_disjoint', 'step_marks_exactly', 'served_cellAt',
     'same_on_all_oms', 'enough_slots', 'step_preserves_wf', 'run_spec', 'history_no_overlap', 'occupancy_is_union',
-    'run_preserves_wf', 'first_fit_lowest', 'user_fixed_honoured_partial', 'reserved_check', 'create_wf',
+    'run_preserves_wf', 'first_fit_lowest', 'user_fixed_honoured', 'user_fixed_membership', 'reserved_check', 'create_wf',
     'stateWF_of_create', 'assignSpectrum_ok', 'assignSpectrum_of', 'spectrumSelection_sound', 'spectrumSelection_first',
     'determineSlotNumbers_pos', 'determineSlotNumbers_fixed', 'nmLoop_spec', 'aggregate_spec', 'restoreOrder_perm',
-    'applyPath_spec')]
-PARTIAL = ['user_fixed_honoured_partial: proved = every returned (N, M) stems from an entry of the request and carries its '
-           'fixed N / M unchanged, and no more pairs than entries are returned; not proved = the positional statement '
-           '"the returned pairs are, in request order, the served entries" (link through restore_order); that part is '
-           'covered by correspondence (exact rq.N/rq.M after every call) and by the monitor (order-preserving embedding)']
+    'applyPath_spec', 'restoreOrder_positional')] + ['Gnpy.Py.sorted_pairwise', 'Gnpy.Py.sorted_perm']
+PARTIAL = []
 RULE = ('one PRNG; (a) histories (74 %): 1-8 OMS over one frequency range (20-128 slots quick, up to 768 thorough; ranges '
         'containing the 193.1 THz anchor, off-grid band edges, guard bands 0-50 GHz), per-OMS unusable zones (left/right/'
         'gap) and pre-occupation, 1-12 (thorough: up to 60) requests with routes over 1-5 OMS, with or without a reverse '
